@@ -296,6 +296,18 @@ func buildETProject(vi int, seed uint64, name string) (*proj.Project, *proj.ETWe
 	if v.Setup != nil {
 		w = v.Setup(r, p)
 	}
+	if (p.Cfg["GroundWaterFrom"] == "gwTimeSeries" || p.Cfg["GroundWaterFrom"] == "polygonfile") && seed%2 == 0 {
+		// a moving groundwater table over a profile whose capacities are given in the soil file (every horizon): the bound of
+		// the water content against the INPUT's field capacity is then in force for every layer the table has left (derived from the
+		// seed: no draw, the other runs are unchanged)
+		for i := range p.Soil {
+			if h := &p.Soil[i]; h.FC == 0 {
+				h.WP = 8 + i%5
+				h.FC = h.WP + 14 + i%7
+				h.PV = h.FC + 8 + i%6
+			}
+		}
+	}
 	etBoundaryConfig(seed, p, v)
 	p.DailyCols = etDailyCols(p.N())
 	return p, w, v
